@@ -322,6 +322,8 @@ def emit_fn(asm, fnrec, sig, body, contract, ret_name):
     first = len(asm.lines) + 1
     if fnrec.impl:
         asm.add('impl %s {' % fnrec.impl)
+    if getattr(fnrec, 'rlimit', None):
+        asm.add('#[verifier::rlimit(%s)]' % fnrec.rlimit)
     asm.add(sig)
     if contract['requires']:
         asm.add('    requires')
@@ -693,6 +695,7 @@ def assemble(unit_path, repo=REPO):
                     fnrec.module = re.sub(r'<.*?>', '', gm.group(2))
             if 'props' in kv:
                 fnrec.props |= set(kv['props'].split(','))
+            fnrec.rlimit = kv.get('rlimit')
             contract = parse_contract(block, fnrec, unit_name)
             body = rsx.strip_comments(body)
             opts = dict(noslice=[x for x in kv.get('noslice', '').split(',') if x],
